@@ -145,7 +145,8 @@ def r2(ctx):
                 got = f"{o.kind}:{o.exc_class}"
             else:
                 got = bool(I.truth(o.run, o.value.items[0], None, fork=False))
-            if head_ok and sub_ok and acc == "present" and deq is None:
+            acc_true = acc == "present" and I.truth(o.run, Sym("accept", "str"), None, fork=False) is not False
+            if head_ok and sub_ok and acc_true and deq is None:
                 fails.setdefault("valid-response-rejected-early", (up, con, acc, offered, chosen, deq, got, o))
             if got != want:
                 cls = ("upgrade" if not (up is not None and "websocket" in _tokens(up)) else
